@@ -8,6 +8,10 @@ S->C: Layout.tla enumerates, inside the bound, every (shape, region, read-out co
       with tagged arrays (and random real payloads, compared bit for bit through the same source map).
 C->S: the abstracted results (source tag of every output cell, region tuples, "absent"/"raised" as the empty tuple) are
       judged record by record by Trace_Layout.tla, also for seeded random larger instances.
+Layout histories: the machine also explores histories of a Layout2D (Build | BuildRotated(c), then Rotate(c) / Extract(e)
+      steps, all four corners, mixed corners, the explored region in every slot); the specification tracks where every slot
+      and the accompanying array must be; each history (every prefix) is realised on real Layout2D objects through
+      rotated_from_roe_corner / new_rotated_from / layout_extracted_from and judged by Trace_Layout.
 Thorough tier: Apalache proves the interval identity for all naturals (spec/Layout_Apalache.tla)."""
 import re
 import shutil
@@ -21,7 +25,8 @@ from harness import core, exact
 CORNERS = [(1, 0), (0, 0), (1, 1), (0, 1)]
 SLOTS = ("parallel_overscan", "serial_prescan", "serial_overscan")
 INVARIANTS = ["Commute", "Involution", "RotRegionForms", "RotCompose", "CodeShapeIsOverlap1", "OverlapForms",
-              "ExtractAddressesOverlap", "SubForms1", "SubForms2", "SubCounts", "SubRejectsEmpty", "CtorMeaning"]
+              "ExtractAddressesOverlap", "SubForms1", "SubForms2", "SubCounts", "SubRejectsEmpty", "CtorMeaning",
+              "HistRegionsIndexArray", "HistInvolution", "HistCompose"]
 
 MC_CFG = """CONSTANTS
   RotShapes <- MCRotShapes
@@ -32,6 +37,9 @@ MC_CFG = """CONSTANTS
   PxMax <- MCPxMax
   CtorLo <- MCCtorLo
   CtorHi <- MCCtorHi
+  HistShapes <- MCHistShapes
+  HistDepth <- MCHistDepth
+  HistAllSlots <- MCHistAllSlots
 SPECIFICATION Spec
 """ + "".join(f"INVARIANT {n}\n" for n in INVARIANTS)
 
@@ -44,6 +52,9 @@ TRACE_CFG = """CONSTANTS
   PxMax = 0
   CtorLo = 0
   CtorHi = 0
+  HistShapes = {}
+  HistDepth = 0
+  HistAllSlots = FALSE
 SPECIFICATION TraceSpec
 POSTCONDITION TraceAccepted
 """
@@ -78,7 +89,21 @@ def expected_counts(b):
                     for x1 in range(x0 + 1, w + 1):
                         s2 += 4 * px + (y1 - y0 + 1) + (x1 - x0 + 1)
     out["sub2"] = s2
+    out["hist"] = sum(_niv(h) * _niv(w) * (3 if b["hist_all_slots"] else 1) * 5 * _hist_count(h, w, b["hist_depth"])
+                      for h, w in b["hist_shapes"])
     return out
+
+
+def _hist_windows(h, w):
+    ws = [(1, h, 0, w), (0, h - 1, 0, w), (0, h, 1, w), (0, h, 0, w - 1)]
+    return sorted({e for e in ws if e[0] < e[1] and e[2] < e[3]})
+
+
+def _hist_count(h, w, d):
+    """number of histories (prefixes included) that continue one built layout on an h x w frame with <= d steps"""
+    if d == 0:
+        return 1
+    return 1 + 4 * _hist_count(h, w, d - 1) + sum(_hist_count(e[1] - e[0], e[3] - e[2], d - 1) for e in _hist_windows(h, w))
 
 
 def enumerate_instances(ctx, b, tag="MC_Layout", timeout=1800):
@@ -91,6 +116,9 @@ def enumerate_instances(ctx, b, tag="MC_Layout", timeout=1800):
         f"MCPxMax == {b['px_max']}",
         f"MCCtorLo == {b['ctor_lo']}",
         f"MCCtorHi == {b['ctor_hi']}",
+        f"MCHistShapes == {_pairs(b['hist_shapes'])}",
+        f"MCHistDepth == {b['hist_depth']}",
+        f"MCHistAllSlots == {'TRUE' if b['hist_all_slots'] else 'FALSE'}",
     ])
     res = ctx.tlc("Layout", MC_CFG, defs=defs, tag=tag, timeout=timeout, coverage=True)
     insts = res.by_kind("inst")
@@ -98,7 +126,8 @@ def enumerate_instances(ctx, b, tag="MC_Layout", timeout=1800):
     got = {}
     for r in insts:
         got[r["kind"]] = got.get(r["kind"], 0) + 1
-    if got != want or res.distinct != 2 * sum(want.values()):
+    hist_inits = sum(_niv(h) * _niv(w) * (3 if b["hist_all_slots"] else 1) for h, w in b["hist_shapes"])
+    if got != want or res.distinct != 2 * (sum(want.values()) - want["hist"]) + want["hist"] + hist_inits:
         raise core.MachineryError(f"Layout.tla enumerated {got} ({res.distinct} states), expected {want}")
     return insts, want
 
@@ -356,8 +385,57 @@ def rec_ctor(dim, r):
     return rec
 
 
+def rec_hist(h, w, regs, steps):
+    """Realise a layout history on real Layout2D objects (and take the tagged array through the same history with
+    layout_util / Region2D.slice); report what is observed after the last step."""
+    import autoarray as aa
+    from autoarray.layout import layout_util as lu
+
+    n = h * w
+    regs = [list(r) for r in regs]
+    steps = [{"op": s["op"], "c": [int(v) for v in s["c"]], "e": [int(v) for v in s["e"]]} for s in steps]
+    rec = {"p": "C19", "api": "hist", "h": h, "w": w, "regs": regs, "steps": steps,
+           "out": [[exact.OFF] * 4] * 3, "arr": [[exact.OFF]], "cont": [[[exact.OFF]]] * 3, "corner": [], "shape": []}
+    kw = {s: (tuple(r) if r else None) for s, r in zip(SLOTS, regs)}
+    A = _tags(h, w)
+    L = None
+    try:
+        for k, s in enumerate(steps):
+            c, e = tuple(s["c"]), tuple(s["e"])
+            if s["op"] == "build":
+                L = aa.Layout2D(shape_2d=(h, w), **kw)
+            elif s["op"] == "buildrot":
+                L = aa.Layout2D.rotated_from_roe_corner(roe_corner=c, shape_native=(h, w), **kw)
+                A = lu.rotate_array_via_roe_corner_from(array=A, roe_corner=c)
+            elif s["op"] == "rot":
+                L = L.new_rotated_from(roe_corner=c)
+                A = lu.rotate_array_via_roe_corner_from(array=A, roe_corner=c)
+            elif s["op"] == "ext":
+                L = L.layout_extracted_from(extraction_region=e if k % 2 else aa.Region2D(region=e))
+                A = A[aa.Region2D(region=e).slice]
+            else:
+                raise core.MachineryError(f"unknown history step {s}")
+    except core.MachineryError:
+        raise
+    except Exception as ex:
+        rec["exc"] = f"{type(ex).__name__} at step {k}"
+        return rec
+    got = [getattr(L, s) for s in SLOTS]
+    rec["out"] = [_reg(g, 4) for g in got]
+    rec["arr"] = _rows(A, n)
+    rec["cont"] = [[] if g is None else _rows(_try(lambda: A[g.slice], np.full((1, 1), -1.0)), n) for g in got]
+    rec["corner"] = _reg(_try(lambda: L.original_roe_corner, None), 2)
+    rec["shape"] = _reg(_try(lambda: L.shape_2d, None), 2)
+    extra = getattr(L, "region_list", None)
+    if extra is not None:  # not an attribute of Layout2D in this tree; recorded for information if it appears
+        rec["region_list"] = [_reg(g, 4) for g in extra]
+    return rec
+
+
 def records_for(inst, seed=0, pad=4):
     k = inst["kind"]
+    if k == "hist":
+        return [rec_hist(inst["sh"][0], inst["sh"][1], inst["regs"], inst["steps"])]
     if k == "rot":
         h, w = inst["sh"]
         recs = [rec_rot(h, w, inst["c"], inst["r"], seed)]
@@ -463,6 +541,32 @@ def random_instances(rng, quick):
             j = int(rng.integers(0, 2))
             r4[2 * j + 1] = r4[2 * j]  # an empty extent on one axis only
         insts.append({"kind": "ctor2", "r": r4})
+    for _ in range(60 * f):
+        h, w = int(rng.integers(2, 10)), int(rng.integers(2, 12))
+        regs = []
+        for j in range(3):
+            if rng.random() < 0.2:
+                regs.append([])
+            else:
+                regs.append([*_rand_iv(rng, h), *_rand_iv(rng, w)])
+        first = {"op": "build", "c": [1, 0], "e": []} if rng.random() < 0.4 else \
+            {"op": "buildrot", "c": list(CORNERS[int(rng.integers(0, 4))]), "e": []}
+        steps, ch, cw, last = [first], h, w, first["c"] if first["op"] == "buildrot" else None
+        for _k in range(int(rng.integers(1, 7))):
+            u = rng.random()
+            if u < 0.25 and last is not None:
+                s = {"op": "rot", "c": list(last), "e": []}  # the same rotation again
+            elif u < 0.75:
+                s = {"op": "rot", "c": list(CORNERS[int(rng.integers(0, 4))]), "e": []}
+            else:
+                e = [*_rand_iv(rng, ch), *_rand_iv(rng, cw)]
+                if rng.random() < 0.5:  # a window that keeps the frame size along one axis
+                    e = [0, ch, e[2], e[3]] if rng.random() < 0.5 else [e[0], e[1], 0, cw]
+                s = {"op": "ext", "c": [1, 0], "e": e}
+                ch, cw = e[1] - e[0], e[3] - e[2]
+            last = s["c"] if s["op"] == "rot" else None
+            steps.append(s)
+            insts.append({"kind": "hist", "sh": [h, w], "regs": regs, "steps": list(steps)})  # every prefix
     return insts
 
 
@@ -470,8 +574,12 @@ def random_instances(rng, quick):
 # validation through Trace_Layout
 # ----------------------------------------------------------------------------------------------
 def _describe(rec):
-    keys = ("h", "w", "c", "r", "o", "e", "m", "px", "dim")
-    return f"{rec['api']} " + " ".join(f"{k}={rec[k]}" for k in keys if k in rec)
+    keys = ("h", "w", "c", "r", "o", "e", "m", "px", "dim", "regs")
+    d = f"{rec['api']} " + " ".join(f"{k}={rec[k]}" for k in keys if k in rec)
+    if "steps" in rec:
+        d += " steps=" + ">".join(s["op"] + (str(tuple(s["c"])) if s["op"] in ("rot", "buildrot") else str(tuple(s["e"])) if s["op"] == "ext" else "")
+                                  for s in rec["steps"])
+    return d
 
 
 def validate(ctx, records, tag, chunk=1500):
@@ -550,10 +658,11 @@ def bounds_for(quick):
     if quick:
         return {"rot_shapes": [(h, w) for h in range(1, 6) for w in range(1, 7)],
                 "iv_max": 8, "ext_shapes": [(3, 4), (4, 3)], "sub_shapes": [(3, 3), (1, 4)], "sub1_max": 5, "px_max": 3,
-                "ctor_lo": -1, "ctor_hi": 3}
+                "ctor_lo": -1, "ctor_hi": 3, "hist_shapes": [(2, 3), (3, 2)], "hist_depth": 2, "hist_all_slots": False}
     return {"rot_shapes": [(h, w) for h in range(1, 7) for w in range(1, 8)],
             "iv_max": 10, "ext_shapes": [(4, 5), (5, 4), (5, 5), (3, 3)], "sub_shapes": [(4, 5), (5, 4), (1, 1)],
-            "sub1_max": 9, "px_max": 5, "ctor_lo": -2, "ctor_hi": 5}
+            "sub1_max": 9, "px_max": 5, "ctor_lo": -2, "ctor_hi": 5,
+            "hist_shapes": [(2, 3), (3, 2), (3, 3)], "hist_depth": 2, "hist_all_slots": True}
 
 
 def run(ctx):
@@ -567,7 +676,8 @@ def run(ctx):
     ctx.bounds = dict(b, enumerated=counts, interval_quadruples_in_0_to_ivmax=(b["iv_max"] + 1) ** 4,
                       valid_interval_quadruples=counts["ext1"], random_instances=len(rnd),
                       random_reach="rot up to 12x14, ext1 coordinates up to 1e9, ext2 frames up to 20x20, "
-                                   "sub-region parents up to 1e5, constructor arguments up to 2e9")
+                                   "sub-region parents up to 1e5, constructor arguments up to 2e9, layout histories on "
+                                   "frames up to 9x11 with up to 6 rotate/extract steps (every prefix judged)")
     pad = b["px_max"] + 1
     allinst = insts + rnd
     groups = [(allinst[k: k + 60], ctx.seed, pad) for k in range(0, len(allinst), 60)]
@@ -578,7 +688,7 @@ def run(ctx):
     by_api = {}
     for r in recs:
         by_api.setdefault(r["api"], []).append(r)
-    for api in ("rot", "ext2", "sub2"):
+    for api in ("rot", "ext2", "sub2", "hist"):
         if by_api.get(api):
             ctx.sample({"record": by_api[api][len(by_api[api]) // 2]})
     ctx.sample({"instance": insts[len(insts) // 3], "random_instance": rnd[0]})
@@ -588,6 +698,10 @@ def run(ctx):
     ctx.note("Array2D.original_orientation is observed on native-stored arrays (Array2D.native): it hands np.array(self) to "
              "rotate_array_via_roe_corner_from, which is documented for 2D ndarrays; on a slim-stored Array2D the call raises "
              "IndexError for three corners -- outside the statement of C19 (which is about index arithmetic), reported to the coordinator")
+    ctx.note("layout histories: Trace_Layout recomputes the expected slots / array from the recorded history; a history whose "
+             "observation equals the code-shaped formulation 'extraction keeps the old shape_2d' (and differs from the "
+             "specification only for that reason) gets the signature hist:rotate-after-extract:stale-shape_2d (known finding, "
+             "proposed fix selftest/proposed_fixes/C19_extracted_layout_shape.diff); any other deviation keeps its own signature")
     if not quick:
         run_apalache(ctx)
     ctx.assumptions = [
@@ -597,6 +711,9 @@ def run(ctx):
         "extraction: original region and window are valid (x0 < x1); for invalid intervals the statement promises nothing "
         "(and the identity is false there, confirmed with Apalache)",
         "Array2D.original_orientation observed on native-stored arrays only",
+        "Layout2D.new_rotated_from(c) APPLIES the flips of corner c (an involution), whatever original_roe_corner the layout "
+        "carries; after layout_extracted_from(e) the layout describes the extracted window (its shape is the frame of later rotations); "
+        "original_roe_corner / shape_2d attributes are recorded but not judged (the statement is about regions and arrays)",
         "TLC 1.8 / SANY / CommunityModules; Apalache 0.58 (thorough tier); alpha maps tag -> source cell and rejects unknown tags",
     ]
 
@@ -618,6 +735,8 @@ def replay(ctx, rp):
         recs = [rec_sub(2, rec["r"], rec["m"], rec["px"], rec["h"], rec["w"])]
     elif api == "ctor":
         recs = [rec_ctor(rec["dim"], rec["r"])]
+    elif api == "hist":
+        recs = [rec_hist(rec["h"], rec["w"], rec["regs"], rec["steps"][:k]) for k in range(1, len(rec["steps"]) + 1)]
     else:
         raise core.MachineryError(f"unknown api {api} in replay file")
     rej = validate(ctx, recs, "C19-replay")
